@@ -52,6 +52,20 @@ CHECKS = {
              'partial: gap-creating writes are excluded from the theorem (known finding ctrio.write-past-eof-gap).',
         technique='Lean 4 refinement proof + model/implementation correspondence',
         design='§4 C12'),
+    'C06': dict(
+        text='Theorems: the reader walk (iterate_dir with its sibling loops and entry counters) on ANY metadata tables '
+             'that represent a tree (decidable predicate repDir; any shape, depth, names) with distinct sibling keys '
+             'returns exactly that tree and never runs out of fuel; bare level-3 parse at any start offset; file '
+             'window = [start+data_offset+entry offset, +size) (C09); case-insensitive lookups depend only on '
+             'lower(path); case-sensitive lookups never consult lower; missing component / directory-as-file errors.  '
+             'Tied to RomFSReader by differential execution on images from an independent 3dbrew-layout builder '
+             '(each image is checked against repDir by the compiled model), a malformed stream, the repository '
+             'fixture, and an independent monitor on listings, sizes, bytes and lookup rules.',
+        note=COMMON_NOTE + 'the Python builder is the specification of a packed RomFS (validated per image against repDir); '
+             'str.lower is a parameter (ASCII in the executable model); IVFC offset arithmetic (float roundup) and '
+             'pyfilesystem2 glue are covered by correspondence only; nesting beyond the CPython recursion limit is out of scope.',
+        technique='Lean 4 proof (induction over the walk) + per-image translation validation + model/implementation correspondence',
+        design='§4 C06'),
     'C07': dict(
         text='Theorems: parse(build table) = stored entries for every table of ten optional well-formed slots with '
              'distinct names (byte-level: chunk slicing, LE round trip, NUL stripping, dict insertion); the four '
